@@ -532,6 +532,9 @@ def rule_emitted_text_parses(cm, rep, rid, depth=3):
                 continue
             try:
                 mod = ast.parse(text)
+                # the checks Python makes after parsing (break outside a loop, return outside a function, nesting depth):
+                # the text is only compiled, never executed
+                compile(text, '<emitted text>', 'exec', dont_inherit=True)
             except SyntaxError as e:
                 problems.setdefault('syntax:%s' % e.msg, (code, '%s at line %s' % (e.msg, e.lineno), text))
                 continue
@@ -1301,3 +1304,42 @@ def rule_unquote_delimiters(cm, rep, rid):
             rep.ok(rid, key, 'exactly the first and the last character are dropped', m.loc(good))
         else:
             rep.note(rid, 'cannot see how %s removes the delimiters of a quoted atom' % m.qname, m.loc())
+
+
+def rule_source_names_disjoint(cm, em, rep, rid):
+    """template-independent companion of rule_no_capture"""
+    rep.rule(rid, 'value-flow only (no templates needed): whenever an emitter method can return a text that is as a whole an '
+                  'identifier and is built from source text (a variable name, a name derived from an atom), the set of such '
+                  'texts is disjoint from the names of the engine context that loaded code relies on - decided on DFAs')
+    from .rules_query import context_literal_keys
+    L = Lex(cm)
+    keys = [k for k in context_literal_keys(em) if k != '__builtins__']
+    rd = lx.dfa(lx.words(keys))
+    ident = lx.dfa(lx.PY_IDENT)
+    gen = cm.repo.cls('yp_generator', 'YPPythonCodeGenerator')
+    n = 0
+    for m in gen.methods.values():
+        if not m.name.startswith('generate') or len(m.params) != 2:
+            continue
+        for v in sorted(cm.flow.pts.get(('R', m.qname), {}), key=str):
+            if v[0] != 'str' or not L.from_source(v[1]):
+                continue
+            try:
+                d = L.dfa(coarse_ident(v[1]))
+            except (ValueError, KeyError, RecursionError):
+                continue
+            if d.subset_of(ident) is not None:
+                continue            # not always an identifier: a larger piece of code (checked through the templates)
+            n += 1
+            key = '%s:return<-%s' % (m.qname, _short(v))
+            w = d.intersect(rd).witness()
+            if w is not None:
+                rep.violation(rid, key, 'the emitter can return the name %r built from source text (%s): it is a name of the engine '
+                              'context that loaded code relies on, so a Prolog text can rebind or shadow it' % (w, L.describe(v[1])[:80]), m.loc())
+            else:
+                rep.ok(rid, key, 'identifier class disjoint from the %d context names' % len(keys), m.loc())
+    rep.minimum('source-derived identifier results of emitter methods', n, 1)
+
+
+def coarse_ident(lex):
+    return lex
